@@ -1,6 +1,8 @@
 // Conformance driver for spec/PolarGridSpec.tla (C17): real PolarGrid vs TLC's index/neighbour/split/coarsening tables.
 // usage: drv_grid <tables.ndjson>
+#include <GMGPolar/gmgpolar.h>
 #include <PolarGrid/polargrid.h>
+#include <cstring>
 #include <cmath>
 #include <fstream>
 #include <iostream>
@@ -70,7 +72,8 @@ int main(int argc, char** argv)
         return 2;
     std::ifstream in(argv[1]);
     std::string line;
-    long n = 0, nfail = 0, ngrids = 0;
+    long n = 0, nfail = 0, ngrids = 0, ncache = 0;
+    const bool cacheMode = argc > 2 && std::string(argv[2]) == "cache";
     while (std::getline(in, line)) {
         if (line.empty())
             continue;
@@ -131,6 +134,53 @@ int main(int argc, char** argv)
                             fail = "coarse angle " + std::to_string(j) + " is not fine angle " + std::to_string(2 * j);
                     if (!fail.empty())
                         break;
+                    // LevelCache derived from the finer level (as setup() does) against a cache evaluated on the coarse grid itself:
+                    // every cached array, bit for bit, for every pair of fine / coarse splits of this instance (spec: CacheDerivation)
+                    if (cacheMode && G.nr() >= 3 && C.nr() >= 2) {
+                        CzarnyGeometry geom(rad[nr - 1], 0.3, 1.4);
+                        SonnendruckerGyroCoefficients coeff(rad[nr - 1], 0.66);
+                        for (int variant = 0; variant < 3 && fail.empty(); variant++) {
+                            const bool cdp = variant != 2, cdg = variant != 1;
+                            auto g0 = std::make_unique<PolarGrid>(G);
+                            auto c0 = std::make_unique<LevelCache>(*g0, coeff, geom, cdp, cdg);
+                            Level L0(0, std::move(g0), std::move(c0), ExtrapolationType::NONE, false);
+                            LevelCache der(L0, C);
+                            LevelCache fresh(C, coeff, geom, cdp, cdg);
+                            auto same = [&](const char* name, const auto& a, const auto& b) {
+                                if (!fail.empty())
+                                    return;
+                                if (a.size() != b.size()) {
+                                    fail = std::string("coarse cache ") + name + " has " + std::to_string(a.size()) + " entries, a cache built on the coarse grid " + std::to_string(b.size());
+                                    return;
+                                }
+                                for (int q = 0; q < (int)a.size(); q++)
+                                    if (std::memcmp(&a[q], &b[q], sizeof(double)) != 0) {
+                                        int ir, it;
+                                        if ((int)a.size() == C.numberOfNodes())
+                                            C.multiIndex(q, ir, it);
+                                        else
+                                            ir = it = q;
+                                        fail = std::string("coarse cache ") + name + " at (" + std::to_string(ir) + "," + std::to_string(it) + ") = " + std::to_string(a[q]) +
+                                               ", evaluated on the coarse grid " + std::to_string(b[q]) + " [fine circles " + std::to_string(G.numberSmootherCircles()) +
+                                               ", coarse circles " + std::to_string(C.numberSmootherCircles()) + ", caches " + (cdp ? "1" : "0") + (cdg ? "1" : "0") + "]";
+                                        return;
+                                    }
+                            };
+                            same("sin_theta", der.sin_theta(), fresh.sin_theta());
+                            same("cos_theta", der.cos_theta(), fresh.cos_theta());
+                            same("coeff_alpha", der.coeff_alpha(), fresh.coeff_alpha());
+                            same("coeff_beta", der.coeff_beta(), fresh.coeff_beta());
+                            same("arr", der.arr(), fresh.arr());
+                            same("att", der.att(), fresh.att());
+                            same("art", der.art(), fresh.art());
+                            same("detDF", der.detDF(), fresh.detDF());
+                            ncache++;
+                        }
+                        if (!fail.empty()) {
+                            fail = "cache: " + fail;
+                            break;
+                        }
+                    }
                 }
             }
         }
@@ -144,6 +194,6 @@ int main(int argc, char** argv)
                           << ",\"what\":\"" << mj::escape(fail) << "\",\"rad\":" << "[]" << "}" << std::endl;
         }
     }
-    std::cout << "{\"summary\":true,\"tables\":" << n << ",\"grids\":" << ngrids << ",\"failed\":" << nfail << "}" << std::endl;
+    std::cout << "{\"summary\":true,\"tables\":" << n << ",\"grids\":" << ngrids << ",\"caches\":" << ncache << ",\"failed\":" << nfail << "}" << std::endl;
     return 0;
 }
